@@ -258,10 +258,99 @@ TextCallOK(B, A, c, before, after) ==
     [] c.fn \in {"insert", "splice"} -> IsErr(c) /\ A = B
     [] OTHER -> IF IsErr(c) THEN A = B ELSE TRUE
 
+(* ---- reconciliation and bulk construction (C27) ------------------------- *)
+(* The image of an object: its value with ids and conflict markers forgotten  *)
+(* (winners only), in the shape of the value arguments of these calls.        *)
+WinVal(reg) == CHOOSE x \in reg.vals : x.id = reg.win
+RECURSIVE ImgObj(_, _)
+ImgVal(V, x) == IF x.v.k = "obj" THEN ImgObj(V, x.id) ELSE [t |-> "scalar", v |-> x.v]
+ImgObj(V, id) ==
+  LET o == V[id] IN
+  IF o.ty \in {"map", "table"} THEN [t |-> "map", ents |-> {[k |-> k, v |-> ImgVal(V, WinVal(o.ents[k]))] : k \in DOMAIN o.ents}]
+  ELSE IF o.ty = "list" THEN [t |-> "seq", items |-> [i \in DOMAIN o.elems |-> ImgVal(V, WinVal(o.elems[i]))]]
+  ELSE [t |-> "text", toks |-> o.text]
+RECURSIVE NormVal(_)
+NormVal(j) ==
+  IF j.t = "map" THEN [t |-> "map", ents |-> {[k |-> j.ents[i].k, v |-> NormVal(j.ents[i].v)] : i \in DOMAIN j.ents}]
+  ELSE IF j.t = "seq" THEN [t |-> "seq", items |-> [i \in DOMAIN j.items |-> NormVal(j.items[i])]]
+  ELSE IF j.t = "text" THEN [t |-> "text", toks |-> j.toks]
+  ELSE [t |-> "scalar", v |-> j.v]
+KindOf(j) == IF j.t = "map" THEN {"map", "table"} ELSE IF j.t = "seq" THEN {"list"} ELSE IF j.t = "text" THEN {"text"} ELSE {}
+(* a register that holds exactly one value whose image is the given value *)
+HoldsValue(V, reg, j) ==
+  /\ Cardinality(reg.vals) = 1
+  /\ \A x \in reg.vals : reg.win = x.id /\ ImgVal(V, x) = NormVal(j)
+OutsideUnchanged(B, A, roots) == \A id \in DOMAIN B \ Desc(B, roots) : id \in DOMAIN A /\ A[id] = B[id]
+
+IsBulk(c) == c.fn \in {"update_text", "update_object", "batch_create", "splice_values", "init_root"}
+BulkOK(B, A, c) ==
+  LET T == c.obj
+      ty == B[T].ty
+  IN
+  CASE c.fn = "update_text" ->
+         IF ty = "text"
+         THEN /\ Ok(c) /\ T \in DOMAIN A /\ A[T].text = c.toks
+              /\ \A id \in DOMAIN B \ {T} : id \in DOMAIN A /\ A[id] = B[id]
+         ELSE IsErr(c) /\ A = B
+    [] c.fn = "update_object" ->
+         IF ty \in KindOf(c.value)
+         THEN /\ Ok(c) /\ T \in DOMAIN A /\ ImgObj(A, T) = NormVal(c.value)
+              /\ OutsideUnchanged(B, A, {T})
+         ELSE IsErr(c) /\ A = B
+    [] c.fn = "batch_create" ->
+         IF ty \in {"map", "table"} THEN
+           IF IsKey(c)
+           THEN /\ Ok(c) /\ T \in DOMAIN A /\ c.key \in DOMAIN A[T].ents
+                /\ HoldsValue(A, A[T].ents[c.key], c.value)
+                /\ [k \in DOMAIN A[T].ents \ {c.key} |-> A[T].ents[k]] = [k \in DOMAIN B[T].ents \ {c.key} |-> B[T].ents[k]]
+                /\ OutsideUnchanged(B, A, {T} \cup (IF c.key \in DOMAIN B[T].ents THEN RegKids(B[T].ents[c.key]) ELSE {}))
+           ELSE IsErr(c) /\ A = B
+         ELSE IF ty = "list" /\ ~IsKey(c) THEN
+           LET es == B[T].elems
+               n == Len(es)
+               i == c.idx + 1
+           IN  IF c.insert
+               THEN IF c.idx <= n
+                    THEN /\ Ok(c) /\ T \in DOMAIN A /\ Len(A[T].elems) = n + 1
+                         /\ HoldsValue(A, A[T].elems[i], c.value)
+                         /\ SeqWithout(A[T].elems, i) = es
+                         /\ OutsideUnchanged(B, A, {T})
+                    ELSE IsErr(c) /\ A = B
+               ELSE IF c.idx < n
+                    THEN /\ Ok(c) /\ T \in DOMAIN A /\ Len(A[T].elems) = n
+                         /\ HoldsValue(A, A[T].elems[i], c.value)
+                         /\ \A j \in 1..n : j # i => A[T].elems[j] = es[j]
+                         /\ OutsideUnchanged(B, A, {T} \cup RegKids(es[i]))
+                    ELSE IsErr(c) /\ A = B
+         ELSE IsErr(c) /\ A = B
+    [] c.fn = "init_root" ->
+         \* every key of the value holds (the image of) its value; the other keys of the root are left as they are
+         LET keys == {c.value.ents[i].k : i \in DOMAIN c.value.ents}
+             valOf(k) == c.value.ents[CHOOSE i \in DOMAIN c.value.ents : c.value.ents[i].k = k].v
+         IN  /\ Ok(c) /\ T \in DOMAIN A
+             /\ \A k \in keys : k \in DOMAIN A[T].ents /\
+                   (\E x \in A[T].ents[k].vals : x.id = A[T].ents[k].win /\ ImgVal(A, x) = NormVal(valOf(k)))
+             /\ \A k \in DOMAIN B[T].ents \ keys : k \in DOMAIN A[T].ents /\ A[T].ents[k] = B[T].ents[k]
+    [] c.fn = "splice_values" ->
+         IF ty = "list"
+         THEN LET es == B[T].elems
+                  n == Len(es)
+                  m == Len(c.values)
+              IN  IF c.idx <= n
+                  THEN /\ Ok(c) /\ T \in DOMAIN A /\ Len(A[T].elems) = n + m
+                       /\ \A j \in 1..c.idx : A[T].elems[j] = es[j]
+                       /\ \A j \in 1..m : HoldsValue(A, A[T].elems[c.idx + j], c.values[j])
+                       /\ \A j \in (c.idx + 1)..n : A[T].elems[j + m] = es[j]
+                       /\ OutsideUnchanged(B, A, {T})
+                  ELSE IsErr(c) /\ A = B
+         ELSE IsErr(c) /\ A = B
+    [] OTHER -> FALSE
+
 CallOK(c) ==
   LET B == Norm(c.before)
       A == Norm(c.after)
   IN  IF c.obj \notin DOMAIN B THEN IsErr(c) /\ A = B
+      ELSE IF IsBulk(c) THEN BulkOK(B, A, c)
       ELSE IF B[c.obj].ty \in {"map", "table"}
            THEN IF IsKey(c) THEN MapCallOK(B, A, c) ELSE IsErr(c) /\ A = B
       ELSE IF B[c.obj].ty = "list"
@@ -277,6 +366,7 @@ Commit ==
         /\ ChkC("C03", "call-has-sequential-effect", ci, CallOK(E.calls[ci]))
         /\ ChkC("C29", "isolated-call-acts-on-the-isolated-state", ci, Len(E.iso) > 0 => CallOK(E.calls[ci]))
         /\ ChkC("C24", "call-indexes-are-in-encoding-units", ci, CallOK(E.calls[ci]))
+        /\ ChkC("C27", "bulk-call-reaches-its-target-value", ci, IsBulk(E.calls[ci]) => CallOK(E.calls[ci]))
         /\ ChkC("C25", "mark-call-has-sequential-effect", ci, E.calls[ci].fn \in {"mark", "unmark"} => CallOK(E.calls[ci]))
   /\ \A ci \in 1..(Len(E.calls) - 1) :
         ChkC("C03", "reads-stable-between-calls", ci, E.calls[ci].after = E.calls[ci + 1].before)
